@@ -340,6 +340,16 @@ SameVertexRecords(S, T) == ObsVerts(S) = ObsVerts(T)
 OthersKept(S, T, except) ==
   {ObsVert(r) : r \in {x \in VRecs(S) : x.id \notin except}} = ObsVerts(T)
 
+\* the same for calls that may rebuild the triangulation (an insertion whose repair falls back to the heuristic
+\* rebuild re-inserts every vertex and may displace an OLD one by the documented perturbation, as a construction
+\* may - C01): home, uuid and data agree; the bits agree unless the vertex is now a documented displacement
+OthersKeptOrNudged(S, T, except) ==
+  /\ {[id |-> r.id, m |-> r.m, data |-> r.data] : r \in {x \in VRecs(S) : x.id \notin except}}
+       = {[id |-> r.id, m |-> r.m, data |-> r.data] : r \in VRecs(T)}
+  /\ \A r \in {x \in VRecs(S) : x.id \notin except} :
+        \/ ObsVert(r) \in ObsVerts(T)
+        \/ r.pert /\ r.dok
+
 \* toroidal canonicalisation of lattice coordinates: L = periods in lattice units (<<>> = Euclidean).
 \* TLA+'s % is the mathematical modulus, so the result is in 0..L-1 for negative m as well.
 WrapHome(m, L) == IF Len(L) = 0 THEN m ELSE [j \in DOMAIN m |-> m[j] % L[j]]
@@ -436,7 +446,7 @@ InsertInserted(pre, a, r, post) ==
          ELSE "C16.later insertion is not wrapped into the domain",
          \A v \in new : ImageOfT(v, a, pre.cfg.L))
   /\ InBox(post)
-  /\ Chk("C02.old vertices kept", OthersKept(post, pre, {a.u}))
+  /\ Chk("C02.old vertices kept", OthersKeptOrNudged(post, pre, {a.u}))
   /\ Chk("C02.key resolves", r.key_ok)
   /\ Chk("C19.more than one perturbation retry", r.attempts <= 2)
   /\ Chk("C02.policies unchanged", post.cfg = pre.cfg)
